@@ -136,8 +136,14 @@ def check_lines(ctx, out, names, nt):
             kinds = ["LocalDate", "LocalTime", "LocalDateTime", "OffsetDateTime", "ZonedDateTime", "ZonedDateTime", "OffsetDateTime"]
             comp_ = [int(x_) for x_ in f[0].split()]
             time_valid = (comp_[3] < 24 and comp_[4] < 60 and comp_[5] < 60) or comp_[3:6] == [24, 0, 0]
+            date_valid = 1873 <= comp_[0] <= 2127 and 1 <= comp_[1] <= 12 and 1 <= comp_[2] <= 31
             for kind, cell in zip(kinds, f[1:]):
                 e, hx = cell.split()
+                if not date_valid and kind != "LocalTime" and unhex(hx) != "<Invalid %s>" % kind:
+                    # independent validity oracle for the date: years 1873..2127 (the documented range), months 1..12, days 1..31
+                    ctx.violation("invalid-date-prints:" + kind, {"line": "ERR3 " + f[0]},
+                                  "a %s built from the invalid date %d-%d-%d printed %r instead of its placeholder (isError() = %s)" %
+                                  (kind, comp_[0], comp_[1], comp_[2], unhex(hx), e))
                 if not time_valid and kind != "LocalDate" and unhex(hx) != "<Invalid %s>" % kind:
                     # independent validity oracle for the time of day: 00:00:00..23:59:59 and 24:00:00 are the valid times
                     ctx.violation("invalid-time-prints:" + kind, {"line": "ERR3 " + f[0]},
@@ -183,7 +189,9 @@ def run(ctx):
     # error values with exactly one invalid part (and valid controls)
     for comp in ((2018, 8, 31, 13, 48, 1), (2018, 13, 1, 0, 0, 0), (2018, 0, 1, 0, 0, 0), (2018, 1, 0, 0, 0, 0), (2018, 1, 32, 0, 0, 0),
                  (2018, 1, 1, 25, 0, 0), (2018, 1, 1, 0, 60, 0), (2018, 1, 1, 0, 0, 60), (2018, 1, 1, 24, 0, 1), (2018, 1, 1, 24, 1, 0), (2018, 1, 1, 24, 30, 30), (2060, 6, 1, 12, 0, 0), (1990, 6, 1, 12, 0, 0),
-                 (2127, 12, 31, 23, 59, 59), (1872, 1, 1, 0, 0, 0)):
+                 (2127, 12, 31, 23, 59, 59), (1872, 1, 1, 0, 0, 0),
+                 (1800, 1, 1, 0, 0, 0), (2200, 6, 15, 12, 0, 0), (0, 1, 1, 0, 0, 0), (2128, 1, 1, 0, 0, 0), (1000, 2, 3, 4, 5, 6), (-1, 1, 1, 0, 0, 0), (2384, 1, 1, 0, 0, 0),
+                 (32767, 12, 31, 23, 59, 59), (-32768, 1, 1, 0, 0, 0), (1617, 5, 5, 5, 5, 5), (2256, 1, 1, 0, 0, 0), (2018, 255, 1, 0, 0, 0), (2018, 1, 255, 0, 0, 0)):
         for off in (0, -480, 99999):
             lines.append("ERR3 %d %d %d %d %d %d %d" % (comp + (off,)))
     # all dates x 4 times
